@@ -2,6 +2,7 @@ package eng
 
 import (
 	"fmt"
+	"time"
 	"go/token"
 	"go/types"
 	"sort"
@@ -74,6 +75,9 @@ type Engine struct {
 	cur        *exec // function activation being executed
 	freshRefs  map[*Term]bool
 	monCache   map[string]*monInfo
+	steps      int
+	funcStart  time.Time
+	funcTermBase int
 	subNames   map[string]string // sanitised sub-object function name -> heap key of its field
 	instHints  []*Term
 	localArrays []*Term // backing arrays of array-typed local variables of the function under verification
